@@ -63,7 +63,7 @@ func init() {
 	vx.Register(&vx.Prop{
 		ID:    "C08",
 		Level: "model_checking",
-		Rule: "explicit exploration of call histories: all sequences of length <=3 (quick) / <=4 (thorough) over a pool of 32 calls (Decode of an activity with 1100 records and of one without any; two Encode calls with strings longer than the profile length; two calls into the checksum package alone; one Decode whose option value is shared by every execution of the call in the process; two calls that stop inside the header; near-twin calls that differ only in the seconds of a local-time zone offset; Decode of two activity streams with accumulating component fields, of a settings file, of a corrupt file, with all options; DecodeChained; CheckIntegrity; Encode of two API-built Files with union definitions in both byte orders and of a decoded File; DecodeHeaderAndFileID; Decode of a stream whose compressed timestamps precede any reference; two Encode calls that fail part-way; Encode of long arrays in a message slice; Decode of two activity files in which every held message type is fully populated; Decode with all options of unknown items whose numbers collide modulo 256); each result includes a digest of the profile tables, every history executed in its own fresh process. " +
+		Rule: "explicit exploration of call histories: all sequences of length <=3 (quick) / <=4 (thorough) over a pool of 34 calls (two course files with 1500 distinct equally long names each; Decode of an activity with 1100 records and of one without any; two Encode calls with strings longer than the profile length; two calls into the checksum package alone; one Decode whose option value is shared by every execution of the call in the process; two calls that stop inside the header; near-twin calls that differ only in the seconds of a local-time zone offset; Decode of two activity streams with accumulating component fields, of a settings file, of a corrupt file, with all options; DecodeChained; CheckIntegrity; Encode of two API-built Files with union definitions in both byte orders and of a decoded File; DecodeHeaderAndFileID; Decode of a stream whose compressed timestamps precede any reference; two Encode calls that fail part-way; Encode of long arrays in a message slice; Decode of two activity files in which every held message type is fully populated; Decode with all options of unknown items whose numbers collide modulo 256); each result includes a digest of the profile tables, every history executed in its own fresh process. " +
 			"Oracle: the result at every position (canonical dump / bytes / error) equals the result of the same call made first in a fresh process; each solo call repeated in 6 fresh processes must agree with itself (Encode determinism). " +
 			"states = distinct behavioural states (vector of results of all one-step extensions of a history prefix); transitions = calls executed; traces = histories",
 		Assumptions: []string{"accumulated distances of records carrying compressed_speed_distance are compared separately and attributed to the listed finding only when a shadow of the package-level accumulator predicts them exactly"},
